@@ -47,6 +47,7 @@ type RunResult struct {
 	SolveS    float64
 	NumPaths  int
 	Contracts int
+	Retried   int // paths decided only in the second (longer, less loaded) stage or not at all
 }
 
 func hasTag(tags []string, t string) bool {
@@ -196,6 +197,44 @@ func verify(c *Ctx, sel func(ct *Contract) bool, want func(name string, tags []s
 			results[i].Status = "vacuous"
 		}
 	}
+	type retryJob struct {
+		j job
+		q string
+	}
+	var retry []retryJob
+	// record applies the answer for one path to the result of its obligation
+	record := func(r *OblResult, ob *Obligation, q string, sr SolveResult) {
+		r.Seconds += sr.Seconds
+		if sr.Seconds > r.MaxPathS {
+			r.MaxPathS = sr.Seconds
+		}
+		if len(q) > r.QueryLen {
+			r.QueryLen = len(q)
+		}
+		switch sr.Status {
+		case "unsat":
+			if r.Solver == "" {
+				r.Solver = sr.Solver
+			}
+		case "sat":
+			if r.Status != "failed" {
+				r.Status = "failed"
+				r.Src, r.Where = ob.Src, ob.Where
+				r.Model = sr.Model
+				r.Query = q
+				r.Solver = sr.Solver
+				r.Detail = fmt.Sprintf("counterexample on path %d (%s)", ob.PathID, strings.Join(sr.Tried, " "))
+			}
+		default:
+			if r.Status == "discharged" {
+				r.Status = "undecided"
+				r.Src, r.Where = ob.Src, ob.Where
+				r.Query = q
+				r.Output = sr.Output
+				r.Detail = fmt.Sprintf("no solver decided path %d (%s)", ob.PathID, strings.Join(sr.Tried, " "))
+			}
+		}
+	}
 	for w := 0; w < 8; w++ {
 		wg.Add(1)
 		go func() {
@@ -238,35 +277,12 @@ func verify(c *Ctx, sel func(ct *Contract) bool, want func(name string, tags []s
 				q = prelude + ax + q
 				sr := solver.Solve(ob.Name, q, true)
 				mu.Lock()
-				r.Seconds += sr.Seconds
-				if sr.Seconds > r.MaxPathS {
-					r.MaxPathS = sr.Seconds
-				}
-				if len(q) > r.QueryLen {
-					r.QueryLen = len(q)
-				}
-				switch sr.Status {
-				case "unsat":
-					if r.Solver == "" {
-						r.Solver = sr.Solver
-					}
-				case "sat":
-					if r.Status != "failed" {
-						r.Status = "failed"
-						r.Src, r.Where = ob.Src, ob.Where
-						r.Model = sr.Model
-						r.Query = q
-						r.Solver = sr.Solver
-						r.Detail = fmt.Sprintf("counterexample on path %d (%s)", ob.PathID, strings.Join(sr.Tried, " "))
-					}
-				default:
-					if r.Status == "discharged" {
-						r.Status = "undecided"
-						r.Src, r.Where = ob.Src, ob.Where
-						r.Query = q
-						r.Output = sr.Output
-						r.Detail = fmt.Sprintf("no solver decided path %d (%s)", ob.PathID, strings.Join(sr.Tried, " "))
-					}
+				if sr.Status != "unsat" && sr.Status != "sat" && solver.RetryFactor > 1 {
+					// not decided within the per-call limit: decided in a second, less loaded stage below
+					r.Seconds += sr.Seconds
+					retry = append(retry, retryJob{j, q})
+				} else {
+					record(r, ob, q, sr)
 				}
 				mu.Unlock()
 			}
@@ -279,6 +295,50 @@ func verify(c *Ctx, sel func(ct *Contract) bool, want func(name string, tags []s
 	}
 	close(jobs)
 	wg.Wait()
+	// Second stage: paths nobody decided within the limit are tried again with a longer limit and fewer
+	// queries in flight, so that a loaded machine does not turn a slow proof into an alarm. At most one
+	// undecided path per obligation is retried after the obligation is already lost.
+	if len(retry) > 0 {
+		rs := NewSolver(solver.WorkDir, solver.CacheDir, solver.Timeout*solver.RetryFactor, solver.Seed)
+		rjobs := make(chan retryJob, len(retry))
+		var rwg sync.WaitGroup
+		for w := 0; w < 3; w++ {
+			rwg.Add(1)
+			go func() {
+				defer rwg.Done()
+				for rj := range rjobs {
+					r := results[rj.j.gi]
+					mu.Lock()
+					lost := r.Status != "discharged"
+					mu.Unlock()
+					var sr SolveResult
+					if lost {
+						sr = SolveResult{Status: "unknown", Tried: []string{"not retried: another path of this obligation already failed"}}
+					} else {
+						sr = rs.Solve(rj.j.ob.Name, rj.q, true)
+					}
+					mu.Lock()
+					record(r, rj.j.ob, rj.q, sr)
+					rr.Retried++
+					mu.Unlock()
+				}
+			}()
+		}
+		for _, rj := range retry {
+			rjobs <- rj
+		}
+		close(rjobs)
+		rwg.Wait()
+		solver.mu.Lock()
+		solver.Calls += rs.Calls
+		for k, v := range rs.Wins {
+			solver.Wins[k] += v
+		}
+		for k, v := range rs.SolverS {
+			solver.SolverS[k] += v
+		}
+		solver.mu.Unlock()
+	}
 	rr.Results = results
 	rr.SolveS = time.Since(t1).Seconds()
 	rr.Contracts = len(keys)
